@@ -8,7 +8,7 @@ COQ_FILES = ["Props/C18.v", "Obl/DispatchOk.v", "Obl/EnumsOk.v"]
 
 
 def correspondence(ctx):
-    n = 400 if ctx.tier == "thorough" else 50
+    n = 400 if ctx.tier == "thorough" else 52
     CC.run_sessions(ctx, "C18", n, lambda rng: dict(n_events=rng.choice([30,60]), burst=0.3, fault=0.35, bad=0.1), lambda rng: dict(required=rng.choice([1,1,2,3])))
 
 
